@@ -451,7 +451,7 @@ func main() {
 
 	// the pseudo functions for the index / slice syntax on binaries
 	fns = append(fns, fnInfo{name: "@index", arity: 1, src: "syntax"}, fnInfo{name: "@slice", arity: 2, src: "syntax"},
-		fnInfo{name: "@bytecolor", arity: 1, src: "direct"})
+		fnInfo{name: "@bytecolor", arity: 1, src: "direct"}, fnInfo{name: "@so", arity: 1, src: "direct"})
 
 	var cases []pcase
 	if cfg.Replay != "" {
@@ -496,6 +496,7 @@ func main() {
 		}
 	} else {
 		cases = generate(fns, pool, cfg, rnd)
+		cases = append(cases, malformedCases(fns, ev, pool, cfg, rnd)...)
 	}
 
 	// chunks of consecutive cases (same function where possible)
